@@ -10,7 +10,7 @@ structure Refs (Q : Nat → Prop) (s : State) : Prop where
   mp : ∀ k, k ∈ s.pending → Q k
 
 theorem otherRel_code' {s : State} {k : Nat} {a b : Th} (h : OtherRel s k a b) : b.code = a.code ∨ b.code = [] := by
-  rcases h with rfl | rfl | ⟨_, _, rfl⟩ | ⟨_, rfl⟩ <;> simp
+  rcases h with rfl | rfl | ⟨_, _, _, rfl⟩ | ⟨_, rfl⟩ <;> simp
 
 theorem exec_refs (Q : Nat → Prop) (P : Prog) (s s' : State) (t : Nat) (i : Instr) (rest : List Instr)
     (hc : (s.th t).code = i :: rest) (h : exec P s t i rest = some s') (hQt : Q t) (hi : Refs Q s) : Refs Q s' := by
@@ -75,7 +75,7 @@ theorem started_stable (P : Prog) (s s' : State) (t k : Nat) (h : step P s t = s
     | exit _ h1 => rw [h1]; simp [Status.rank]
     | cb c _ _ h1 => rw [h1]; simp [Status.rank]
     | atexitDone _ _ _ h1 => rw [h1]; simp [Status.rank]
-  · rcases step_other P s s' t h k hkt with h1 | h1 | ⟨h0, _, h1⟩ | ⟨_, h1⟩
+  · rcases step_other P s s' t h k hkt with h1 | h1 | ⟨h0, _, _, h1⟩ | ⟨_, h1⟩
     · rw [h1]; exact hk
     · rw [h1]; exact hk
     · rw [h0] at hk; simp [Status.rank] at hk
@@ -134,7 +134,7 @@ theorem refInv_thr (P : Prog) (s s' : State) (t : Nat) (h : step P s t = some s'
       fun k hk => stab k (r1.mp k hk)⟩, fun k hk => ?_, ?_⟩
     · by_cases hkt : k = t
       · subst hkt; rw [c1]; exact hi.copy k hst
-      · rcases exec_other P s s' t i rest he k hkt with h1 | h1 | ⟨_, _, h1⟩ | ⟨h0, h1⟩
+      · rcases exec_other P s s' t i rest he k hkt with h1 | h1 | ⟨_, _, _, h1⟩ | ⟨h0, h1⟩
         · rw [h1] at hk ⊢; exact hi.copy k hk
         · rw [h1] at hk ⊢; exact hi.copy k hk
         · rw [h1] at hk; simp [Status.rank] at hk
